@@ -1607,9 +1607,11 @@ MANIFEST = {
             "and every edit / touch / load_metadata of B's files leave the library and cache of every other user A (A not "
             "master for loads) exactly as they were; user_resolution_spec (lazy imports included, every user, every focus): whenever the "
             "cache invariant holds for the library of user u, a normal return of load_theory(n, limit, username=u) carries the "
-            "specification on u's OWN files (a module's load_theory call works on master and never disturbs u's library); there "
-            "is NO history-level load_eq_spec for several users yet (that the invariant of EVERY user's library survives every "
-            "multi-user history -- in particular master's through another user's lazy imports -- is not proved): the results "
+            "specification on u's OWN files (a module's load_theory call works on master and never disturbs u's library); "
+            "load_eq_spec_users_partial: for every NON-master user u, after any multi-user history whose operations on u's own "
+            "files satisfy the hypothesis (nothing asked of the other users), a normal return carries the specification on "
+            "u's current files; NOT proved: the same for master when other users are active (master's library is also "
+            "changed by their lazy imports) and the no-spurious-failure direction for several users; the results "
             "of loads in multi-user histories, including users whose imports differ from master's and theories master lacks, are judged by "
             "the second-user histories (fresh process, reference loader, model step by step). FUEL: every theorem admits the outcome 'the model ran out of fuel'; no theorem says that some amount of "
             "fuel suffices; every run confirms on its own histories that fuel 400 sufficed. "
